@@ -312,6 +312,46 @@ def gen_case(rng, n):
     return g.ops
 
 
+def gen_plugin_case(rng, ntests):
+    """the real MemoryLeakWarningPlugin drives the detector: pre action, a scripted test body (allocations through the API and
+    the overloads, releases of own and of earlier tests' blocks, ignore / expect flags), post action; reports of the checking
+    period after every post action and right after the next pre action"""
+    g = Gen(rng)
+    for _ in range(rng.randint(0, 3)):
+        g.alloc()
+    g.ops.append("plugin create"); g.period = "enabled"
+    for t in range(ntests):
+        if rng.random() < 0.3:       # between two tests
+            g.alloc() if rng.random() < 0.5 else g.free()
+        g.ops.append("plugin pre"); g.period = "checking"
+        g.ops.append("report checking")
+        for _ in range(rng.randint(0, 7)):
+            x = rng.random()
+            if x < 0.35:
+                g.alloc()
+            elif x < 0.5:
+                g.galloc()
+            elif x < 0.7:
+                g.free()
+            elif x < 0.78:
+                g.grelease_paired()
+            elif x < 0.88:
+                g.ops.append("plugin ignore")
+            elif x < 0.95:
+                g.ops.append("plugin expect %d" % rng.randint(0, 4))
+            else:
+                g.realloc()
+        g.ops.append("plugin post"); g.period = "enabled"
+        for l in g.tracked():
+            if g.blocks[l]["period"] == "checking":
+                g.blocks[l]["period"] = "enabled"
+        g.ops.append("report checking")
+        if rng.random() < 0.3:
+            g.ops.append("report enabled")
+    g.ops.append("report all")
+    return g.ops
+
+
 def gen_malformed(rng, n):
     g = Gen(rng)
     g.no_drop = True
@@ -349,6 +389,8 @@ def generate(rng, tier):
         out.append(("gen", gen_case(rng, rng.choice(lens))))
     for _ in range(n // 10):
         out.append(("malformed", gen_malformed(rng, rng.choice([5, 20, 60]))))
+    for _ in range(n // 8):
+        out.append(("plugin", gen_plugin_case(rng, rng.choice([1, 2, 4, 8, 20]))))
     return out
 
 
@@ -360,8 +402,9 @@ def signature(r):
 
 
 def translate(ctx):
-    from translate import extract_leakdetector
-    return extract_leakdetector.run()
+    from translate import extract_leakdetector, extract_leakplugin
+    # the plugin's pre / post statement lists (C07's translator; the C04 model of the plugin-driven scenario imports them)
+    return (extract_leakdetector.run() or []) + (extract_leakplugin.run() or [])
 
 
 def _walk(r):
